@@ -21,8 +21,8 @@ import (
 	"github.com/ipld/go-ipld-prime"
 	"github.com/ipld/go-ipld-prime/datamodel"
 	"github.com/ipld/go-ipld-prime/fluent/qp"
-	"github.com/ipld/go-ipld-prime/node/basicnode"
 	cidlink "github.com/ipld/go-ipld-prime/linking/cid"
+	"github.com/ipld/go-ipld-prime/node/basicnode"
 	"github.com/ipld/go-ipld-prime/storage/memstore"
 	"github.com/ipni/go-libipni/dagsync/ipnisync"
 	"github.com/ipni/go-libipni/ingest/schema"
@@ -175,31 +175,33 @@ func (w *World) Requests() []Request {
 
 // Publisher is a simulated index-provider.
 type Publisher struct {
-	w         *World
-	Idx       int
-	Key       gen.Key
-	ID        peer.ID
-	Store     *memstore.Store
-	Lsys      ipld.LinkSystem
-	Pub       *ipnisync.Publisher
-	HostPort  string
-	Addr      multiaddr.Multiaddr
+	w           *World
+	Idx         int
+	Key         gen.Key
+	ID          peer.ID
+	Store       *memstore.Store
+	Lsys        ipld.LinkSystem
+	Pub         *ipnisync.Publisher
+	HostPort    string
+	Addr        multiaddr.Multiaddr
 	Alias, Dead multiaddr.Multiaddr
-	Discovery bool        // serve /.well-known/libp2p/protocols (libp2p-HTTP mode)
-	Chain     []cid.Cid   // ads, oldest first
-	LinkProto cidlink.LinkPrototype
+	Discovery   bool      // serve /.well-known/libp2p/protocols (libp2p-HTTP mode)
+	Chain       []cid.Cid // ads, oldest first
+	LinkProto   cidlink.LinkPrototype
 
-	mu       sync.Mutex
-	headFlt  []Fault         // consumed by head requests, in order
-	blockFlt map[int][]Fault // block-request ordinal (since ArmFaults) -> faults
-	cidFlt   map[string][]Fault
-	blockOrd int
-	held     bool
-	gate     chan struct{}
-	inFlight int // block requests currently being served (including parked)
-	MaxInFlt int
-	headBody []byte // custom head for every head request (C03)
-	parked   atomic.Int32 // requests of this publisher parked at its gate right now
+	mu          sync.Mutex
+	headFlt     []Fault         // consumed by head requests, in order
+	blockFlt    map[int][]Fault // block-request ordinal (since ArmFaults) -> faults
+	cidFlt      map[string][]Fault
+	blockOrd    int
+	held        bool
+	gate        chan struct{}
+	inFlight    int // block requests currently being served (including parked)
+	MaxInFlt    int
+	headBody    []byte        // custom head for every head request (C03)
+	parked      atomic.Int32  // requests of this publisher parked at its gate right now
+	headGate    chan struct{} // non-nil: head requests park here
+	parkedHeads atomic.Int32
 }
 
 // AddPublisher creates publisher i (key pool index i, ed25519) listening on 10.0.0.(i+1):80.
@@ -487,6 +489,22 @@ func (p *Publisher) Open() {
 // Parked reports how many requests of this publisher are parked at its closed gate right now.
 func (p *Publisher) Parked() int { return int(p.parked.Load()) }
 
+// HoldHeads makes head requests park until OpenHeads is called.
+func (p *Publisher) HoldHeads() { p.mu.Lock(); p.headGate = make(chan struct{}); p.mu.Unlock() }
+
+// OpenHeads releases parked head requests.
+func (p *Publisher) OpenHeads() {
+	p.mu.Lock()
+	if p.headGate != nil {
+		close(p.headGate)
+		p.headGate = nil
+	}
+	p.mu.Unlock()
+}
+
+// ParkedHeads returns the number of head requests parked at the head gate.
+func (p *Publisher) ParkedHeads() int { return int(p.parkedHeads.Load()) }
+
 func (p *Publisher) IsHeld() bool { p.mu.Lock(); defer p.mu.Unlock(); return p.held }
 
 func (p *Publisher) InFlight() int { p.mu.Lock(); defer p.mu.Unlock(); return p.inFlight }
@@ -560,7 +578,20 @@ func (p *Publisher) ServeHTTP(rw http.ResponseWriter, r *http.Request) {
 	}
 	held, gate := p.held, p.gate
 	headBody := p.headBody
+	headGate := p.headGate
 	p.mu.Unlock()
+	if req.Kind == "head" && headGate != nil {
+		w.parkedReq.Add(1)
+		p.parkedHeads.Add(1)
+		w.Bump()
+		select {
+		case <-headGate:
+		case <-r.Context().Done():
+		}
+		p.parkedHeads.Add(-1)
+		w.parkedReq.Add(-1)
+		w.Bump()
+	}
 	if req.Kind == "block" {
 		defer func() { p.mu.Lock(); p.inFlight--; p.mu.Unlock() }()
 		if held {
